@@ -592,11 +592,15 @@ func (x *reflExec) opSet(path []reflStep, w bool, cur protoreflect.Message, fd p
 		code = "xset"
 	}
 	x.run(code, path, w, append([]string{reflNum(fd)}, toks...), true, func(m protoreflect.Message) []string {
+		ro := !m.IsValid()
 		if viaProto {
 			xt := fd.(protoreflect.ExtensionTypeDescriptor).Type()
 			proto.SetExtension(m.Interface(), xt, xt.InterfaceOf(v))
 		} else {
 			m.Set(fd, v)
+		}
+		if ro {
+			x.fail("Set through a read-only empty message does not panic: " + string(fd.FullName()))
 		}
 		return nil
 	})
@@ -642,7 +646,11 @@ func (x *reflExec) opGetUnknown(path []reflStep, w bool) {
 
 func (x *reflExec) opSetUnknown(path []reflStep, w bool, b []byte) {
 	x.run("setunk", path, w, []string{HexB(b)}, true, func(m protoreflect.Message) []string {
+		ro := !m.IsValid()
 		m.SetUnknown(protoreflect.RawFields(b))
+		if ro {
+			x.fail("SetUnknown on a read-only empty message does not panic: " + string(m.Descriptor().FullName()))
+		}
 		return nil
 	})
 }
@@ -737,8 +745,12 @@ func (x *reflExec) opList(path []reflStep, w bool, cur protoreflect.Message, fd 
 		v := reflNewSingular(c, fd, func() protoreflect.Value { return cur.NewField(fd).List().NewElement() })
 		x.run("lapp", path, w, append(base, reflSingularToks(fd, v)...), true, func(m protoreflect.Message) []string {
 			l := reflListOf(m, fd, viaGet)
+			ro := !l.IsValid()
 			n := l.Len()
 			l.Append(v)
+			if ro {
+				x.fail("Append through a read-only empty list does not panic: " + string(fd.FullName()))
+			}
 			if l.Len() != n+1 || !m.Has(fd) {
 				x.fail("List.Len/Has after Append: " + string(fd.FullName()))
 			}
@@ -749,8 +761,12 @@ func (x *reflExec) opList(path []reflStep, w bool, cur protoreflect.Message, fd 
 	case 5:
 		x.run("lappmut", path, w, base, true, func(m protoreflect.Message) []string {
 			l := reflListOf(m, fd, viaGet)
+			ro := !l.IsValid()
 			n := l.Len()
 			v := l.AppendMutable()
+			if ro {
+				x.fail("AppendMutable through a read-only empty list does not panic: " + string(fd.FullName()))
+			}
 			if l.Len() != n+1 || !v.Message().IsValid() || strings.Join(msgDump(v.Message()), " ") != "M 0 x" {
 				x.fail("AppendMutable does not append a new empty mutable message: " + string(fd.FullName()))
 			}
@@ -769,8 +785,12 @@ func (x *reflExec) truncate(path []reflStep, w bool, fd protoreflect.FieldDescri
 	grew := false
 	x.run("ltrunc", path, w, []string{reflNum(fd), reflVia(viaGet), HexN(uint64(n))}, true, func(m protoreflect.Message) []string {
 		l := reflListOf(m, fd, viaGet)
+		ro := !l.IsValid()
 		before := l.Len()
 		l.Truncate(n)
+		if ro {
+			x.fail("Truncate through a read-only empty list does not panic: " + string(fd.FullName()))
+		}
 		if n > before {
 			grew = true // no panic although n is out of bounds
 			l.Truncate(before)
@@ -830,8 +850,12 @@ func (x *reflExec) opMap(path []reflStep, w bool, cur protoreflect.Message, fd p
 		v := reflNewSingular(c, vfd, func() protoreflect.Value { return cur.NewField(fd).Map().NewValue() })
 		x.run("mset", path, w, append(append(base, msgScalarToken(kfd, k.Value())), reflSingularToks(vfd, v)...), true, func(m protoreflect.Message) []string {
 			mp := reflMapOf(m, fd, viaGet)
+			ro := !mp.IsValid()
 			n, had := mp.Len(), mp.Has(k)
 			mp.Set(k, v)
+			if ro {
+				x.fail("Set through a read-only empty map does not panic: " + string(fd.FullName()))
+			}
 			want := n + 1
 			if had {
 				want = n
@@ -885,7 +909,11 @@ func (x *reflExec) opMap(path []reflStep, w bool, cur protoreflect.Message, fd p
 		k := reflKeyOf(c, fd, curMap)
 		x.run("mmut", path, w, append(base, msgScalarToken(kfd, k.Value())), true, func(m protoreflect.Message) []string {
 			mp := reflMapOf(m, fd, viaGet)
+			ro := !mp.IsValid()
 			v := mp.Mutable(k)
+			if ro {
+				x.fail("Mutable through a read-only empty map does not panic: " + string(fd.FullName()))
+			}
 			if !mp.Has(k) || !v.Message().IsValid() {
 				x.fail("Map.Mutable does not store a mutable entry: " + string(fd.FullName()))
 			}
